@@ -122,7 +122,7 @@ Proof.
     set (l1 := filter (fun x => (x <? 0) || (st <=? x)) l).
     set (cnt := Z.of_nat (length (filter (fun x => (st <=? x) && (x <=? en)) l1))).
     destruct (cnt <? mx); [|reflexivity].
-    set (l2 := if existsb (Z.eqb en) l1 then l1 else l1 ++ [en]).
+    set (l2 := l1 ++ [en]).
     assert (S1 : forall e, supd (match l, l1 with [], _ => s | _, [] => supd s k None | _, _ => supd s k (Some (RZSet l1, d)) end) k e = supd s k e).
     { intro e. destruct l; [reflexivity|]. destruct l1; apply supd_supd. }
     rewrite S1. destruct (0 <? ttl) eqn:Ep; [|reflexivity].
